@@ -580,6 +580,35 @@ func vRunFunc(t []string) (out string, ok bool) {
 			return fmt.Sprintf("1,%d,%d,%s", o, l, vIPStr4(dst)), true
 		}
 		return fmt.Sprintf("0,%d,%d", o, l), true
+	case "ip4prefixd", "containsip4d", "ip6prefixd", "containsip6d":
+		// the same functions with a caller-supplied result buffer of any length (a capacity like the others)
+		dst := make([]byte, vNat(t[2]))
+		var r string
+		var k bool
+		switch t[0] {
+		case "ip4prefixd":
+			var n int
+			var e ErrorHdr
+			k, n, e = IP4Prefix(vUnhex(t[1]), dst)
+			r = fmt.Sprintf("%s,%d,%s", vb01(k), n, vErrName(e))
+		case "containsip4d":
+			var o, l int
+			k, o, l = ContainsIP4(vUnhex(t[1]), dst)
+			r = fmt.Sprintf("%s,%d,%d", vb01(k), o, l)
+		case "ip6prefixd":
+			var n int
+			var e ErrorHdr
+			k, n, e = IP6Prefix(vUnhex(t[1]), dst)
+			r = fmt.Sprintf("%s,%d,%s", vb01(k), n, vErrName(e))
+		default:
+			var o, l int
+			k, o, l = ContainsIP6(vUnhex(t[1]), dst)
+			r = fmt.Sprintf("%s,%d,%d", vb01(k), o, l)
+		}
+		if k {
+			r += ",dst=" + vIPStr4(dst)
+		}
+		return r, true
 	case "ip6prefix":
 		dst := make([]byte, 16)
 		k, n, e := IP6Prefix(vUnhex(t[1]), dst)
